@@ -237,14 +237,16 @@ CHECKS = {
               "defaulted cc.Xor / cc.Any whose alternatives are again such expressions, nested arbitrarily (CcXorRule / CcAnyRule are "
               "members of the fragment: fragN_mkCcXor_items, fragN_mkCcAny_items, rtn_ccXor, rtn_ccAny on ccXor_roundtrip_gen / "
               "ccAny_roundtrip_gen; build_untagged: no constructor tags what it returns; e.g. a defaulted choice below an Imply "
-              "below the configurator, a choice below a choice); defaults_kept — whenever the configurator's class map "
+              "below the configurator, a choice below a choice); items_configurator_exact — a StingyConfigurator over defaulted cc.Xor / cc.Any "
+              "rules over items (ids pairwise distinct) is read back as the very same model, hence with the same default priorities, "
+              "polyhedron, columns and JSON (ccAny_items_exact, ccXor_items_exact, stingy_exact); defaults_kept — whenever the configurator's class map "
               "reads back what a cc.Any / cc.Xor node wrote, the model it builds carries the same default; evaluation and "
               "default priorities of the configurator classes are tied by correspondence + oracle only; "
               "id_written_iff — for every class an explicitly given id is written and a generated one is not. Tie: to_json "
               "(through json.dumps/loads) and from_json compared with the model for every class incl. configurators; oracle: "
               "leaves and bounds, evaluation on assignments, explicit ids kept, no id emitted for generated ones, defaults and "
               "default priorities on named ids."),
-        note="PARTIAL at the theorem level: default priorities and the polyhedron after the round trip are covered by the correspondence and the oracle, not by a theorem; the theorems keep the hypotheses DistinctRT (All / StingyConfigurator, fails exactly on F16f) and two inequalities of generated ids (Imply / XNor). Findings F16a-F16e were found by this check and repaired (five fix: commits). KNOWN FINDING F16f (not repaired, known_findings.json): siblings that differ only in the sign argument as passed get different generated ids but equal JSON, collapse after the round trip and change the value of an enclosing All — found while extending the theorem to All; the check prints KNOWN-FINDING for it and still reports every other round-trip failure.",
+        note="PARTIAL at the theorem level: for configurators with rules other than defaulted choices over items, default priorities and the polyhedron after the round trip are covered by the correspondence and the oracle, not by a theorem; the theorems keep the hypotheses DistinctRT (All / StingyConfigurator, fails exactly on F16f) and two inequalities of generated ids (Imply / XNor). Findings F16a-F16e were found by this check and repaired (five fix: commits). KNOWN FINDING F16f (not repaired, known_findings.json): siblings that differ only in the sign argument as passed get different generated ids but equal JSON, collapse after the round trip and change the value of an enclosing All — found while extending the theorem to All; the check prints KNOWN-FINDING for it and still reports every other round-trip failure.",
         technique="Lean 4 theorem (mutual induction over the fragment) + differential correspondence (both directions) + round-trip oracle",
         ref="§4 C16"),
     "C17": dict(
